@@ -14,7 +14,7 @@ package absnfs
 // it is entered with the lock read-held and releases it exactly once on every path, after the handler ran
 //@ requires handler != nil && h != nil && h.server != nil && call != nil && reply != nil && held(handler.policyRWMu) == 1
 //@ requires srvOK(h) && handler == h.server.handler && authCtx != nil
-//@ modifies everything, allghosts - atomicptr - lsncfg - poolsrc, locks, once
+//@ modifies everything, allghosts - atomicptr - lsncfg - poolsrc - ioCalls - ioReplies, locks, once
 //@ atreturn set handlerCalls = handlerCalls + 1
 //@ ensures [counts] handlerCalls == old(handlerCalls) + 1
 //@ ensures [released-once] held(old(handler).policyRWMu) == 0
